@@ -459,7 +459,7 @@ def eval_c03_cross(ctx: core.Ctx, ex: campaign.Executed, collect_fail):
             if line.startswith("A "):
                 outs[key] = ("assert", line[:100])
             elif line.startswith("E "):
-                outs[key] = ("exception", line[:100])
+                outs[key] = (exc_kind(line), line[:100])
             elif line.startswith("H "):
                 raise core.HarnessError(line)
             elif case["op"] == "S":
